@@ -60,8 +60,10 @@ func spf(f string, a ...any) *string { s := fmt.Sprintf(f, a...); return &s }
 
 // Expect is the expected content of one catalog relation.
 type Expect struct {
-	Name  string   // e.g. "COLUMNS", "SHOW COLUMNS d.t"
-	Query string
+	Name   string // e.g. "COLUMNS", "SHOW COLUMNS"
+	Schema string // for per-schema / per-table SHOW statements
+	Table  string
+	Query  string
 	Cols  []string // result column names to project (matched case-insensitively)
 	KeyN  int      // the first KeyN columns identify a row
 	Rows  []Row
@@ -213,10 +215,10 @@ func (c *Catalog) Expectations() []*Expect {
 	for _, sn := range sortedKeys(c.Schemas) {
 		s := c.Schemas[sn]
 		schemata.Rows = append(schemata.Rows, Row{sp(sn)})
-		showTables := &Expect{Name: "SHOW TABLES", KeyN: 1, Cols: []string{"#0"}, Query: "SHOW TABLES FROM " + Q(sn)}
-		showFull := &Expect{Name: "SHOW FULL TABLES", KeyN: 1, Cols: []string{"#0", "Table_type"}, Query: "SHOW FULL TABLES FROM " + Q(sn)}
-		showTrg := &Expect{Name: "SHOW TRIGGERS", KeyN: 1, Cols: []string{"Trigger", "Event", "Table", "Statement", "Timing"}, Query: "SHOW TRIGGERS FROM " + Q(sn)}
-		showProc := &Expect{Name: "SHOW PROCEDURE STATUS", KeyN: 2, Cols: []string{"Db", "Name", "Type"}, Query: "SHOW PROCEDURE STATUS WHERE Db = '" + sn + "'"}
+		showTables := &Expect{Name: "SHOW TABLES", Schema: sn, KeyN: 1, Cols: []string{"#0"}, Query: "SHOW TABLES FROM " + Q(sn)}
+		showFull := &Expect{Name: "SHOW FULL TABLES", Schema: sn, KeyN: 1, Cols: []string{"#0", "Table_type"}, Query: "SHOW FULL TABLES FROM " + Q(sn)}
+		showTrg := &Expect{Name: "SHOW TRIGGERS", Schema: sn, KeyN: 1, Cols: []string{"Trigger", "Event", "Table", "Statement", "Timing"}, Query: "SHOW TRIGGERS FROM " + Q(sn)}
+		showProc := &Expect{Name: "SHOW PROCEDURE STATUS", Schema: sn, KeyN: 2, Cols: []string{"Db", "Name", "Type"}, Query: "SHOW PROCEDURE STATUS WHERE Db = '" + sn + "'"}
 		out = append(out, showTables, showFull, showTrg, showProc)
 
 		for _, tn := range sortedKeys(s.Tables) {
@@ -224,8 +226,8 @@ func (c *Catalog) Expectations() []*Expect {
 			tables.Rows = append(tables.Rows, Row{sp(sn), sp(tn), sp("BASE TABLE"), sp("InnoDB"), sp(t.Comment)})
 			showTables.Rows = append(showTables.Rows, Row{sp(tn)})
 			showFull.Rows = append(showFull.Rows, Row{sp(tn), sp("BASE TABLE")})
-			showCols := &Expect{Name: "SHOW COLUMNS", KeyN: 1, Cols: []string{"Field", "Type", "Null", "Key", "Default", "Extra"}, Query: "SHOW COLUMNS FROM " + Q(sn) + "." + Q(tn)}
-			showIdx := &Expect{Name: "SHOW INDEXES", KeyN: 3, Cols: []string{"Table", "Key_name", "Seq_in_index", "Non_unique", "Column_name", "Sub_part", "Null", "Index_type"}, Query: "SHOW INDEXES FROM " + Q(sn) + "." + Q(tn)}
+			showCols := &Expect{Name: "SHOW COLUMNS", Schema: sn, Table: tn, KeyN: 1, Cols: []string{"Field", "Type", "Null", "Key", "Default", "Extra"}, Query: "SHOW COLUMNS FROM " + Q(sn) + "." + Q(tn)}
+			showIdx := &Expect{Name: "SHOW INDEXES", Schema: sn, Table: tn, KeyN: 2, Cols: []string{"Key_name", "Seq_in_index", "Table", "Non_unique", "Column_name", "Sub_part", "Null", "Index_type"}, Query: "SHOW INDEXES FROM " + Q(sn) + "." + Q(tn)}
 			out = append(out, showCols, showIdx)
 			for i, col := range t.Cols {
 				def, extra := ColDefaultExtra(col)
@@ -265,7 +267,7 @@ func (c *Catalog) Expectations() []*Expect {
 						nu = "0"
 					}
 					stats.Rows = append(stats.Rows, Row{sp(sn), sp(tn), sp(name), spf("%d", k+1), sp(nu), sp(p.Col), sub, sp(nullable), sp(typ), sp(comment)})
-					showIdx.Rows = append(showIdx.Rows, Row{sp(tn), sp(name), spf("%d", k+1), sp(nu), sp(p.Col), sub, sp(nullable), sp(typ)})
+					showIdx.Rows = append(showIdx.Rows, Row{sp(name), spf("%d", k+1), sp(tn), sp(nu), sp(p.Col), sub, sp(nullable), sp(typ)})
 				}
 			}
 			if pk := t.PKCols(); len(pk) > 0 {
@@ -302,11 +304,26 @@ func (c *Catalog) Expectations() []*Expect {
 				for k, col := range fk.Cols {
 					kcu.Rows = append(kcu.Rows, Row{sp(sn), sp(tn), sp(fk.Name), spf("%d", k+1), sp(sn), sp(col), spf("%d", k+1), sp(sn), sp(fk.Parent), sp(fk.ParentCol[k])})
 				}
-				uc := "PRIMARY"
+				uc := sp("PRIMARY")
 				if fk.ParentCol[0] == "k" {
-					uc = "uk"
+					uc = sp("uk")
 				}
-				rc.Rows = append(rc.Rows, Row{sp(sn), sp(fk.Name), sp(sn), sp(uc), sp(ruleText(fk.OnUpdate)), sp(ruleText(fk.OnDelete)), sp(tn), sp(fk.Parent)})
+				// which key MySQL names when several unique keys lead with the referenced column is not clear-cut
+				if pt := s.Tables[fk.Parent]; pt != nil {
+					n := 0
+					if pk := pt.PKCols(); len(pk) > 0 && pk[0] == fk.ParentCol[0] {
+						n++
+					}
+					for _, ix := range pt.Indexes {
+						if ix.Kind == "UNIQUE" && len(ix.Cols) > 0 && ix.Cols[0].Col == fk.ParentCol[0] {
+							n++
+						}
+					}
+					if n != 1 {
+						uc = Skip()
+					}
+				}
+				rc.Rows = append(rc.Rows, Row{sp(sn), sp(fk.Name), sp(sn), uc, sp(ruleText(fk.OnUpdate)), sp(ruleText(fk.OnDelete)), sp(tn), sp(fk.Parent)})
 			}
 		}
 		for _, vn := range sortedKeys(s.Views) {
